@@ -206,6 +206,56 @@ def run_case(case):
         if d:
             out.fail("recv", "recv:%s:second_serialisation:%s" % (rec.name, d[0]), {"diff": d[1], "entity_class": type(ent).__name__})
         return out
+    if case["sub"] == "recv_edit":
+        # serialising an entity is an observation, not an operation on it: an entity that has been serialised (sent, logged) and
+        # is then edited through its own setters serialises to the same stanza as an unserialised twin given the same edits
+        import inspect
+        out.label("recv_edit", "owner=" + str(rec.owner))
+        ta, tb = G.materialize(case["tree"]), G.materialize(case["tree2"])
+        try:
+            a1, a2 = cls.fromProtocolTreeNode(T.to_node(ta)), cls.fromProtocolTreeNode(T.to_node(ta))
+            b1, b2 = cls.fromProtocolTreeNode(T.to_node(tb)), cls.fromProtocolTreeNode(T.to_node(tb))
+            a1.toProtocolTreeNode()
+        except Exception:
+            # (the plain round trip is the recv sub-check's business)
+            out.label("recv_edit:not_built")
+            return out
+        if type(a1) is not type(b1):
+            out.label("recv_edit:different_classes")
+            return out
+        names = [k for k, v in inspect.getmembers(type(a1)) if isinstance(v, property) and v.fset is not None]
+        order = case.get("order") or list(range(len(names)))
+        edits = 0
+        for i in order:
+            name = names[i % len(names)]
+            try:
+                v1, v2 = getattr(b1, name), getattr(b2, name)
+                setattr(a2, name, v2)
+            except Exception:
+                continue
+            try:
+                setattr(a1, name, v1)
+            except Exception as e:
+                out.fail("recv", "recv_edit:%s:setter_raises_only_after_serialisation:%s" % (rec.name, name), {"error": repr(e)[:200]})
+                return out
+            edits += 1
+            try:
+                n2 = a2.toProtocolTreeNode()
+            except Exception:
+                out.label("recv_edit:edited_entity_not_serialisable")
+                return out
+            try:
+                n1 = a1.toProtocolTreeNode()
+            except Exception as e:
+                out.fail("recv", "recv_edit:%s:serialise_raises_only_after_earlier_serialisation" % rec.name, {"error": repr(e)[:200], "edited": name})
+                return out
+            d = loose_diff(n2, n1, "", getattr(rec, "numeric_tags", ()))
+            if d:
+                out.fail("recv", "recv_edit:%s:edit_after_serialisation_not_in_the_stanza:%s" % (rec.name, name),
+                         {"diff": d[1], "entity_class": type(a1).__name__, "edited": name})
+                return out
+        out.info = {"nt": edits >= 2}
+        return out
     if case["sub"] == "send":
         args = [S.unjson_val(a) for a in case["args"]]
         kwargs = {k: S.unjson_val(v) for k, v in case["kwargs"].items()}
@@ -291,6 +341,17 @@ def plan(tier):
             strategies.append(("recv_large:" + r.name,
                                S.shape_strategy(r.shape, large=True).map(lambda t, _n=r.name: {"sub": "recv", "name": _n, "tree": S.tree_to_json(t)}),
                                1 if quick else 10))
+    import inspect
+    for r in [r for r in E.RECV if keep(r)]:
+        try:
+            n_props = len([1 for k, v in inspect.getmembers(r.load()) if isinstance(v, property) and v.fset is not None])
+        except Exception:
+            n_props = 0
+        if n_props:
+            strategies.append(("recv_edit:" + r.name,
+                               st.tuples(S.shape_strategy(r.shape), S.shape_strategy(r.shape), st.lists(st.integers(0, 15), min_size=1, max_size=6)).map(
+                                   lambda t, _n=r.name: {"sub": "recv_edit", "name": _n, "tree": S.tree_to_json(t[0]), "tree2": S.tree_to_json(t[1]), "order": t[2]}),
+                               n_recv))
     for r in [r for r in E.SEND if keep(r)]:
         strategies.append(("send:" + r.name,
                            S.args_strategy(r.args, r.kwargs).map(lambda ak, _n=r.name: {"sub": "send", "name": _n, "args": ak[0], "kwargs": ak[1]}),
